@@ -239,6 +239,35 @@ def run_cell(cell, seed):
             okc, d, ratio = util.compare('x.grad vs 0.5 * first gradient', g3[0], 0.5 * util.np64(grad), tol3)
             out.append(res(HELD, case3, 'M-JAC.native', ratio=ratio) if okc else
                        res(VIOLATED, case3, 'M-JAC.native', d, ratio=ratio))
+    # the caller overwrites the tensor it fed to the layer IN PLACE before back-propagating (a reused buffer,
+    # a clamp step).  Either autograd refuses the backward (the layer saved that tensor through
+    # save_for_backward and the version check fires: a clear error, out of scope) or the gradient is the one at
+    # the values the forward pass saw - never a gradient silently taken at the new values.
+    case4 = {'cell': cell, 'check': 'input modified in place before backward'}
+    x4 = x0.clone().requires_grad_(True)
+    xin = x4 * 1.0                                  # non-leaf, so that it may be edited in place
+    ok4, z4 = util.call_lib(mod, xin)
+    if ok4:
+        ok_e, e4 = util.call_lib(lambda: xin.mul_(-3.0).add_(0.7))
+        if not ok_e:
+            out.append(res(core.SKIPPED, case4, 'M-JAC.native', 'torch refuses the in-place edit of the input'))
+        else:
+            ok4, g4 = util.call_lib(torch.autograd.grad, [z4], [x4], [cot], allow_unused=True)
+            if not ok4:
+                msg = str(g4)
+                if 'modified by an inplace operation' in msg:
+                    out.append(res(core.SKIPPED, case4, 'M-JAC.native', 'autograd refuses: a saved tensor was modified in place'))
+                else:
+                    out.append(res(VIOLATED, case4, 'M-JAC.native', 'backward after an in-place edit of the input raised %r' % (g4,)))
+            elif g4[0] is None:
+                out.append(res(VIOLATED, case4, 'M-JAC.native', 'no gradient delivered'))
+            else:
+                G = scatref.stage_gain(cell['biort'], cell['qshift'], cell['order'])
+                cond = max(1.0, float(x0.abs().max()) * G / cell['magbias'])
+                tol4 = 1e-11 * float(cot.abs().max()) * G * min(cond, 1e6) + 1e-300
+                okc, d, ratio = util.compare('x.grad vs the gradient at the forward values', g4[0], util.np64(grad), tol4)
+                out.append(res(HELD, case4, 'M-JAC.native', ratio=ratio) if okc else
+                           res(VIOLATED, case4, 'M-JAC.native', d, ratio=ratio))
     # (ii) finite differences
     if cell['magbias'] >= 1e-2:
         case = {'cell': cell, 'check': 'fd'}
